@@ -71,7 +71,7 @@ def continuous(conf, seed):
     # with noise the 5-sigma clause relies on linear (Fisher) error propagation: S/N >= 30
     lo = 30.0 if conf["noise"] else 10.0
     amp = math.exp(rng.uniform(math.log(lo), math.log(200.0 if internal else 1000.0)))
-    if rng.random() < 0.3:
+    if rng.random() < 0.5:       # both polarities equally often (the amplitude limits differ by sign in the code)
         amp = -amp
     ra0 = 30.0 if conf["ra"] == "generic" else 359.99
     return {"scale": scale, "beam": (bmaj, bmin, bpa), "a": a, "b": b, "pa": pa, "size": size,
@@ -91,11 +91,27 @@ def correlated_noise(shape, beam_pix, seed):
     return out / out.std()
 
 
+COARSE = [(sign, bp, ph) for sign in (1, -1) for bp in (3.0, 3.3, 3.6)
+          for ph in ((0.5, 0.5), (0.45, 0.55), (0.5, 0.25))]
+
+
+def coarse(conf, seed, k):
+    """the coarsest admissible sampling: a point source of either sign under a round beam of 3.0-3.6 pixels, centred
+    on or near a pixel corner (the brightest pixel is up to 15 % below the true peak)."""
+    p = continuous(dict(conf, beam="circ"), seed)
+    sign, bp, ph = COARSE[k % len(COARSE)]
+    b = bp * p["scale"]
+    p.update(beam=(b, b, 0.0), a=b, b=b, pa=0.0, kind="point", amp=sign * max(abs(p["amp"]), 50.0),
+             x0=int(p["x0"]) + ph[0], y0=int(p["y0"]) + ph[1],
+             phase="half-half" if ph == (0.5, 0.5) else "generic")
+    return p
+
+
 def observe(args):
     rid, conf, seed, workdir, use_cli = args
     common.quiet_logging()
     from astropy.wcs import WCS
-    p = continuous(conf, seed)
+    p = coarse(conf, seed, int(rid.split("/")[1])) if rid.startswith("coarse/") else continuous(conf, seed)
     rec = {"id": rid, "conf": conf, "seed": seed, "err": "", "noise": bool(conf["noise"]), "n_components": -1,
            "dpos_1e4px": 0, "peak_ppm": 0, "a_ppm": 0, "b_ppm": 0, "dpa_udeg": 0, "int_ppm": 0,
            "ratio_1e3": int(round(1000 * p["a"] / p["b"])), "z_milli": [], "kind": p["kind"], "cli": bool(use_cli), "phase": p["phase"]}
@@ -247,6 +263,10 @@ def run(ctx):
         for k in range(reps):
             jobs.append(("cfg%d/%d" % (i, k), c, ctx.seed * 1000003 + i * 17 + k, ctx.workdir,
                          (not quick or i % 10 == 0) and k == 0 and c["bkgrms"] == "forced" and i % 5 == 0))
+    # coarse-sampling sweep (both signs x beam width x sub-pixel phase), noise-free, forced maps
+    cc = [c for c in forced if c["beam"] == "circ" and not c["noise"]]
+    for k in range(len(COARSE)):
+        jobs.append(("coarse/%d" % k, cc[(k * 7) % len(cc)], ctx.seed * 1000003 + 900000 + k, ctx.workdir, False))
     # (not multiprocessing.Pool: its workers are daemonic and BANE needs child processes)
     from concurrent.futures import ProcessPoolExecutor
     with ProcessPoolExecutor(max_workers=16) as pool:
